@@ -140,11 +140,17 @@ def presented (a : AdfSt) (perm order : List Nat) : String × String :=
   let st := stableAll c.1 n r.2
   let tv := SM.ngSearch .simple 200000 st.1 n r.2 false
   let eq := s!"{showVec r.2} ; {showVec g.2} ; {showVecs c.2.2} ; {showVecs st.2} ; {showVecs tv.2.1}"
-  let tts := a.tts
-  let gr := Spec.showI3 (Spec.grounded n tts)
-  let co := showSetC (Spec.completeAll n tts)
-  let sb := showSetC (Spec.stableAll n tts)
-  let m2 := showSetC (Spec.models2 n tts)
+  -- the oracle speaks about the ORIGINAL framework: brute force up to 7 statements, beyond that the
+  -- verified model on the original (see `modelAnswer`)
+  let setOf := fun (vs : List (List Nat)) =>
+    let xs := Spec.sortStrings (vs.map tfu)
+    if xs.isEmpty then "-" else joinWith "," xs
+  let orig := if n ≤ 7 then (Store.init, []) else buildNative n a.fms.toList
+  let tts := if n ≤ 7 then a.tts else []
+  let gr := if n ≤ 7 then Spec.showI3 (Spec.grounded n tts) else tfu (groundedLoop StoreRA (n + 1) orig.1 orig.2).2
+  let co := if n ≤ 7 then showSetC (Spec.completeAll n tts) else setOf (completeAll orig.1 n orig.2).2.2
+  let sb := if n ≤ 7 then showSetC (Spec.stableAll n tts) else setOf (stableAll orig.1 n orig.2).2
+  let m2 := if n ≤ 7 then showSetC (Spec.models2 n tts) else setOf (SM.ngSearch .simple 2000000 orig.1 n orig.2 false).2.1
   (eq, s!"grounded={gr} complete={co} stable={sb} twoval={m2} biogrounded={gr} biocomplete={co} biostable={sb} biorew={sb} biorew2={sb} natrew={sb} hybpre={sb}")
 
 def orderCheck (n : Nat) (sort : String) (perm : List Nat) (labels : List String) (order : List Nat) : String :=
